@@ -14,7 +14,7 @@ guard/src/commands/rulegen.rs (the CLI binary's crate):
                        strings wrapped in one pair of double quotes
 """
 import re
-from engine import ai, mirlib as M
+from engine import ai, flow, mirlib as M
 from engine.statusmon import Mon
 from rules.c08 import def_of_local
 
@@ -318,71 +318,7 @@ IDENTITY_ON_DOMAIN = {
 
 
 def slice_calls(cr, f, start_local):
-    """flow-insensitive backward data slice inside f: the calls whose results may flow into start_local, and the constants met"""
-    seen, calls, consts = set(), [], []
-    work = [start_local]
-    # writes through pointers: `(*p).. = rv` makes the local p was derived from depend on rv
-    ptr_writes = {}
-    for b in f["blocks"]:
-        for s in b["s"]:
-            if "rv" in s and not isinstance(s["p"], int):
-                ptr_writes.setdefault(M.place_local(s["p"]), []).append(s["rv"])
-    derived = {}
-    for b in f["blocks"]:
-        for s in b["s"]:
-            if "rv" in s and isinstance(s["p"], int) and s["rv"]["r"] in ("cast", "use", "ref", "rawptr"):
-                src = M.op_place(s["rv"]["o"]) if "o" in s["rv"] else s["rv"].get("p")
-                if src is not None:
-                    derived.setdefault(M.place_local(src), []).append(s["p"])
-
-    def rv_sources(rv):
-        out = []
-        for k in ("o", "a", "b"):
-            if k in rv:
-                pl = M.op_place(rv[k])
-                if pl is not None:
-                    out.append(M.place_local(pl))
-                elif "k" in rv[k]:
-                    consts.append(rv[k]["k"])
-        if "p" in rv:
-            out.append(M.place_local(rv["p"]))
-        for o in rv.get("ops", []):
-            pl = M.op_place(o)
-            if pl is not None:
-                out.append(M.place_local(pl))
-            elif "k" in o:
-                consts.append(o["k"])
-        return out
-
-    while work:
-        l = work.pop()
-        if l in seen:
-            continue
-        seen.add(l)
-        for b in f["blocks"]:
-            for s in b["s"]:
-                if "rv" in s and M.place_local(s["p"]) == l:
-                    work.extend(rv_sources(s["rv"]))
-            t = b["term"]
-            if t["t"] == "call" and M.place_local(t["dest"]) == l:
-                calls.append(t)
-                for x in t["args"]:
-                    pl = M.op_place(x)
-                    if pl is not None:
-                        work.append(M.place_local(pl))
-                    elif "k" in x:
-                        consts.append(x["k"])
-        # storage written through a pointer derived from l
-        stack, dseen = [l], set()
-        while stack:
-            d = stack.pop()
-            if d in dseen:
-                continue
-            dseen.add(d)
-            for rv in ptr_writes.get(d, []):
-                work.extend(rv_sources(rv))
-            stack.extend(derived.get(d, []))
-    return calls, consts, seen
+    return flow.backward_slice(f, start_local)
 
 
 def gen_rules(ctx, cr):
